@@ -332,8 +332,12 @@ theorem parallelCheck_ret (E : Nat) (c : Cache) (now : Nat) (ps : List Payload) 
 
 /-- **error_iff_all_failed**: the call fails iff at least one batch was run and every batch that was
 run failed (`k` = number of batches run = all of them while the caller's context is alive).
-In particular: no payloads, every payload served from the cache, or a context that was done before
-anything was submitted ⇒ no error. -/
+In particular, with ZERO batches (`k = 0`, `order = []`) — no payloads, every payload served from the cache, a
+context that was done before anything was submitted, or a runner that had been closed (its stopped worker
+group refuses every job) — the right-hand side is false: no error; what is returned then is exactly the
+cache hits (`zero_batches_returns_hits`).  In the source this is the `result.Total() == 0` arm: nothing but a
+log line, then the error test fails on `result.Total() > 0` (`zero_total_matches_source`); the rates
+(`SuccessRate` / `FailureRate`) are computed only in the other arm (`rates_need_batches_matches_source`). -/
 theorem error_iff_all_failed (E : Nat) (c : Cache) (now : Nat) (ps : List Payload) (out : Nat → BatchOut)
     (order : List Nat) (k : Nat) (hk : k ≤ (batches c now ps).length) (hord : order ~ List.range k) :
     (parallelCheck E c now ps out order).2.err = true ↔ 0 < k ∧ ∀ i, i < k → (out i).res = none := by
@@ -1011,6 +1015,187 @@ theorem specTrace_of_explained (E : Nat) (rets : List (Nat × Ret × Bool)) (evs
     · have hrev : e :: pre.reverse = (pre ++ [e]).reverse := by simp
       rw [hrev] at hx
       exact ih (pre ++ [e]) (by simp [heq]) x hx
+
+/-! ### no batch at all: no payloads, every payload served from the cache, nothing submitted -/
+
+/-- the error test with a zero total: `result.Total() > 0` fails, whatever the other counters say — the accumulated
+values (the cache hits) are returned without error -/
+theorem finish_zero_total (a : Acc) (h : a.successes + a.failures = 0) :
+    finish a = { values := a.values, err := false } := by
+  unfold finish
+  simp [h]
+
+/-- **zero batches**: a call none of whose batches was aggregated — because there are no payloads, because every
+payload was served from the cache, or because nothing could be submitted (the caller's context was already done, or
+the runner had been closed: the stopped worker group refuses every job) — returns the cache hits, in payload order,
+reports no error, and leaves the cache as it is -/
+theorem zero_batches_returns_hits (E : Nat) (c : Cache) (now : Nat) (ps : List Payload) (out : Nat → BatchOut) :
+    parallelCheck E c now ps out [] = (c, { values := hits c now ps, err := false }) := by
+  rw [pc_eq]
+  by_cases h : toRun c now ps = []
+  · rw [if_pos h]
+  · rw [if_neg h]
+    simp [finish]
+
+/-- `error_iff_all_failed` at `k = 0`: without a batch there is no error -/
+theorem zero_batches_no_error (E : Nat) (c : Cache) (now : Nat) (ps : List Payload) (out : Nat → BatchOut)
+    (order : List Nat) (hord : order ~ List.range 0) :
+    (parallelCheck E c now ps out order).2.err = false := by
+  have h := error_iff_all_failed E c now ps out order 0 (Nat.zero_le _) hord
+  cases he : (parallelCheck E c now ps out order).2.err with
+  | false => rfl
+  | true => exact absurd (h.mp he).1 (Nat.lt_irrefl 0)
+
+/-- no payloads: nothing is returned (and nothing asked of cache or pipeline) -/
+theorem no_payloads_returns_nothing (E : Nat) (c : Cache) (now : Nat) (out : Nat → BatchOut) (order : List Nat) :
+    parallelCheck E c now [] out order = (c, { values := [], err := false }) := by
+  simp [parallelCheck]
+
+/-- a call on a closed runner (or with a context that is already done) satisfies the run-time predicate: it is the
+`k = 0` instance of `parallelCheck_spec` with the `cancelled` mark the driver gives such a call -/
+theorem nothing_submitted_spec (E : Nat) (c : Cache) (hist : List CheckResult) (hgood : Good c hist)
+    (now : Nat) (ps : List Payload) (out : Nat → BatchOut) :
+    CallObs.ok { payloads := ps, dones := [], ret := { values := hits c now ps, err := false },
+                 hist := hist, cancelled := true } = true := by
+  have h := parallelCheck_spec E c hist hgood now ps out [] 0 (Nat.zero_le _) (by simp) true (fun _ => rfl)
+  rw [zero_batches_returns_hits] at h
+  simpa using h
+
+/-! ### life cycle -/
+
+/-- a life-cycle call that answers an error leaves the flag as it was -/
+theorem life_error_keeps_flag (running : Bool) (op : LifeOp) (h : (lifeStep running op).2 = true) :
+    (lifeStep running op).1 = running := by
+  cases op <;> cases running <;> simp_all [lifeStep]
+
+/-- **double Start**: the second `Start` of a running runner answers an error and the runner keeps running; the
+`Close` after it succeeds and one more `Close` answers an error -/
+theorem double_start_rejected :
+    lifeRun false [.start, .start, .close, .close] = [false, true, false, true] ∧
+    lifeFlag false [.start, .start] = true := by decide
+
+/-- `Close` before any `Start` answers an error and does not prevent the `Start` that follows -/
+theorem close_before_start_rejected : lifeRun false [.close, .start, .close] = [true, false, false] := by decide
+
+private theorem flagAfter_single (running : Bool) (op : LifeOp) :
+    flagAfter running [(op, (lifeStep running op).2)] = (lifeStep running op).1 := by
+  cases op <;> cases running <;> rfl
+
+/-- the model's answers satisfy the run-time predicate, for every sequence of life-cycle calls -/
+theorem lifeRun_spec (running : Bool) (ops : List LifeOp) :
+    lifeOk running (ops.zip (lifeRun running ops)) = true := by
+  induction ops generalizing running with
+  | nil => rfl
+  | cons op ops ih =>
+    simp only [lifeRun, List.zip_cons_cons, lifeOk, flagAfter_single, ih, Bool.and_true]
+    cases op <;> cases running <;> rfl
+
+/-- the predicate determines the answers: whatever satisfies it is what the model answers -/
+theorem lifeOk_unique (running : Bool) (ops : List LifeOp) (errs : List Bool) (hl : errs.length = ops.length)
+    (h : lifeOk running (ops.zip errs) = true) : errs = lifeRun running ops := by
+  induction ops generalizing running errs with
+  | nil => cases errs with
+    | nil => rfl
+    | cons _ _ => simp at hl
+  | cons op ops ih =>
+    cases errs with
+    | nil => simp at hl
+    | cons e es =>
+      simp only [List.zip_cons_cons, lifeOk, Bool.and_eq_true, beq_iff_eq] at h
+      obtain ⟨h1, h2⟩ := h
+      have he : e = (lifeStep running op).2 := by
+        cases op <;> cases running <;> simp_all [lifeStep]
+      subst he
+      rw [flagAfter_single] at h2
+      simp only [lifeRun]
+      rw [← ih (lifeStep running op).1 es (by simpa using hl) h2]
+
+/-! ### a check call made through `Observer.Process` -/
+
+/-- the model of `Process` satisfies the run-time predicate, whatever the tick, the pre-processors, the processor
+and the post-processor do -/
+theorem process_spec (tickFails : Bool) (tick : List Payload) (pres : List PreSpec) (run : List Payload → Ret)
+    (postFails : Bool) :
+    ProcObs.ok { tickFails := tickFails, tick := tick, pres := pres, postFails := postFails,
+                 out := process tickFails tick pres run postFails,
+                 ret := (process tickFails tick pres run postFails).asked.map run } = true := by
+  unfold process
+  cases tickFails with
+  | true => simp [ProcObs.ok, ProcObs.codeOk, ProcObs.preOk, ProcObs.askedOk, ProcObs.postOk]
+  | false =>
+    rcases hr : runPres pres tick with ⟨_ | ps, n⟩
+    · simp [ProcObs.ok, ProcObs.codeOk, ProcObs.preOk, ProcObs.askedOk, ProcObs.postOk, hr]
+    · cases he : (run ps).err <;> cases postFails <;>
+        simp [ProcObs.ok, ProcObs.codeOk, ProcObs.preOk, ProcObs.askedOk, ProcObs.postOk, hr, he]
+
+/-- **a failing pre-processor ends the call**: the processor (the runner) is not asked, the post-processor is not
+called, the pre-processors after it are not invoked, and `Process` answers that pre-processor's error -/
+theorem process_pre_error_stops (tick : List Payload) (pres : List PreSpec) (run : List Payload → Ret)
+    (postFails : Bool) (h : (runPres pres tick).1 = none) :
+    process false tick pres run postFails =
+      { code := 2, preCalls := (runPres pres tick).2, asked := none, post := none } := by
+  unfold process
+  rcases hr : runPres pres tick with ⟨_ | ps, n⟩
+  · simp
+  · rw [hr] at h; cases h
+
+/-- a pre-processor fails somewhere in the list iff the loop answers `none`; the number of invocations is then the
+position of the first failing one (counted from 1) -/
+theorem runPres_none_iff {α} (pres : List PreSpec) (l : List α) :
+    (runPres pres l).1 = none ↔ ∃ p ∈ pres, p.fails = true := by
+  induction pres generalizing l with
+  | nil => simp [runPres]
+  | cons p ps ih =>
+    unfold runPres
+    by_cases hp : p.fails = true
+    · simp [hp]
+    · simp only [hp, Bool.false_eq_true, if_false, List.mem_cons, exists_eq_or_imp, false_or]
+      exact ih _
+
+theorem runPres_calls_le {α} (pres : List PreSpec) (l : List α) : (runPres pres l).2 ≤ pres.length := by
+  induction pres generalizing l with
+  | nil => simp [runPres]
+  | cons p ps ih =>
+    unfold runPres
+    by_cases hp : p.fails = true
+    · simp [hp]
+    · simp only [hp, Bool.false_eq_true, if_false, List.length_cons]
+      exact Nat.succ_le_succ (ih _)
+
+/-- **results are handed on untouched**: when the processor succeeds, the post-processor gets exactly its results
+together with exactly the payloads it was asked about (what the last pre-processor returned) -/
+theorem process_hands_on_results (tick : List Payload) (pres : List PreSpec) (run : List Payload → Ret)
+    (postFails : Bool) (ps : List Payload) (h : (runPres pres tick).1 = some ps) (hok : (run ps).err = false) :
+    (process false tick pres run postFails).asked = some ps ∧
+    (process false tick pres run postFails).post = some ((run ps).values, ps) ∧
+    (process false tick pres run postFails).code = (if postFails then 4 else 0) := by
+  unfold process
+  rcases hr : runPres pres tick with ⟨_ | ps', n⟩
+  · rw [hr] at h; cases h
+  · rw [hr] at h
+    cases h
+    cases postFails <;> simp [hok]
+
+/-- **C13 through the observer**: the check call `Process` makes on the runner is an ordinary call with the
+pre-processed payloads, so what the post-processor receives satisfies the per-call predicate of C13 with respect to
+those payloads -/
+theorem process_runner_spec (E : Nat) (c : Cache) (hist : List CheckResult) (hgood : Good c hist)
+    (now : Nat) (tick : List Payload) (pres : List PreSpec) (out : Nat → BatchOut) (order : List Nat) (postFails : Bool)
+    (ps : List Payload) (h : (runPres pres tick).1 = some ps)
+    (k : Nat) (hk : k ≤ (batches c now ps).length) (hord : order ~ List.range k)
+    (cancelled : Bool) (hcx : k < (batches c now ps).length → cancelled = true)
+    (hok : (parallelCheck E c now ps out order).2.err = false) :
+    ∃ vals, (process false tick pres (fun q => (parallelCheck E c now q out order).2) postFails).post = some (vals, ps) ∧
+      CallObs.ok { payloads := ps, dones := order.map (fun i => ((batches c now ps).getD i [], out i)),
+                   ret := { values := vals, err := false }, hist := hist, cancelled := cancelled } = true := by
+  obtain ⟨_, h2, _⟩ := process_hands_on_results tick pres (fun q => (parallelCheck E c now q out order).2) postFails ps h hok
+  refine ⟨_, h2, ?_⟩
+  have hs := parallelCheck_spec E c hist hgood now ps out order k hk hord cancelled hcx
+  have : (parallelCheck E c now ps out order).2 = { values := (parallelCheck E c now ps out order).2.values, err := false } := by
+    cases hp : (parallelCheck E c now ps out order).2 with
+    | mk v e => rw [hp] at hok; simp at hok; simp [hok]
+  rw [this] at hs
+  exact hs
 
 /-! ### what the code does that one might not expect (witnesses, not violations of C13) -/
 
